@@ -124,12 +124,26 @@ Url(sc, au, pa, qu) == [scheme |-> sc, auth |-> au, path |-> pa, query |-> qu]
 Decorate(u, kid, nonce) == [u EXCEPT !.path = IF @ = "" THEN "/" ELSE @, !.query = Append(@, "cup2key=" \o kid \o ":" \o nonce)]
 Urls == {Url(sc, au, pa, qu) : sc \in Schemes, au \in Auths, pa \in Paths, qu \in Queries}
 
+\* Beyond the listed properties: HttpUriExt::extend_dir_with_path (http_uri_ext.rs:25-50).  The base path is a
+\* directory: the new path is appended with exactly one '/' between them; an empty path changes nothing; the query
+\* stays.  (Paths are sequences of characters so that "ends with '/'" can be said.)
+PathSeqs == {<<>>, <<"/">>, <<"/", "a">>, <<"/", "a", "/">>, <<"/", "a", "/", "b">>}
+SubPaths == {<<>>, <<"x">>, <<"x", "/", "y">>}
+ExtendDir(bp, sub) ==
+  IF sub = <<>> THEN bp
+  ELSE LET b == IF bp = <<>> THEN <<"/">> ELSE bp IN
+       IF b[Len(b)] = "/" THEN b \o sub ELSE b \o <<"/">> \o sub
+RECURSIVE JoinChars(_)
+JoinChars(cs) == IF cs = <<>> THEN "" ELSE Head(cs) \o JoinChars(Tail(cs))
+
 VARIABLES kind, x
 Init == \/ (kind = "ex" /\ x \in SliceA)
         \/ (kind = "ex" /\ x \in SliceB)
         \/ (kind = "ex" /\ x \in SliceC)
         \/ (kind = "tok" /\ x \in TokStrings(4))
         \/ (kind = "url" /\ x \in Urls)
+        \/ (kind = "ext" /\ x \in {[auth |-> au, path |-> pa, sub |-> su, query |-> qu] :
+                                     au \in {"h", "[::1]:8080"}, pa \in PathSeqs, su \in SubPaths, qu \in {<<>>, <<"x=1">>, <<"x=1", "y=2">>}})
 Next == UNCHANGED <<kind, x>>
 Spec == Init /\ [][Next]_<<kind, x>>
 
@@ -141,5 +155,7 @@ UrlLaw == kind = "url" => LET d == Decorate(x, "7", "nn") IN
 Emit ==
   CASE kind = "ex" -> PrintT("CUP " \o ToJson([k |-> "ex", x |-> x, accept |-> Accept(x), class |-> Verifier(x), sigValid |-> SigValid(x)]))
     [] kind = "tok" -> PrintT("CUP " \o ToJson([k |-> "tok", ts |-> x, accept |-> TokAccept(x)]))
+    [] kind = "ext" -> PrintT("CUP " \o ToJson([k |-> "ext", auth |-> x.auth, path |-> JoinChars(x.path), sub |-> JoinChars(x.sub),
+                                                  query |-> x.query, exp |-> JoinChars(ExtendDir(x.path, x.sub))]))
     [] OTHER -> PrintT("CUP " \o ToJson([k |-> "url", u |-> x, d |-> Decorate(x, "KID", "NONCE")]))
 =============================================================================
